@@ -87,3 +87,29 @@ pub fn core_engine_log_only(
         crate::dht::routing_maintenance::close_group_validator::CloseGroupEnforcementMode::LogOnly,
     )
 }
+
+use std::sync::RwLock;
+
+/// Callback invoked at labelled crash points of the persistent-state writer.
+pub type CrashPointFn = Arc<dyn Fn(&'static str) + Send + Sync>;
+
+static CRASH_POINT_CALLBACK: RwLock<Option<CrashPointFn>> = RwLock::new(None);
+
+/// Install (or, with `None`, remove) the global crash-point callback.
+pub fn set_crash_point_callback(cb: Option<CrashPointFn>) {
+    if let Ok(mut slot) = CRASH_POINT_CALLBACK.write() {
+        *slot = cb;
+    }
+}
+
+/// Called between the steps of `persistent_state`'s log writer, rotation,
+/// checkpoint and clean-up.  Does nothing unless a callback is installed.
+pub fn crash_point(label: &'static str) {
+    let cb = match CRASH_POINT_CALLBACK.read() {
+        Ok(slot) => slot.clone(),
+        Err(_) => None,
+    };
+    if let Some(cb) = cb {
+        cb(label);
+    }
+}
